@@ -448,13 +448,18 @@ impl Client {
                 self.drain();
             }
             Gap::SleepMs(ms) => self.sleep_polling(*ms, 50).await,
-            Gap::Until { what, max_ms, hold } => {
+            Gap::Until { what, max_ms, hold, advance_ms } => {
                 crate::controller::with_current(|s| s.arm(*what, *hold));
                 let end = self.now_ms() + *max_ms;
                 loop {
                     self.drain();
                     if crate::controller::with_current(|s| s.trigger_fired()).unwrap_or(true) {
                         self.count("probe.trace_trigger_hit");
+                        if *advance_ms > 0 {
+                            self.count("fault.clock_jump_inside_critical_section");
+                            tokio::time::advance(Duration::from_millis(*advance_ms)).await;
+                            self.drain();
+                        }
                         break;
                     }
                     let now = self.now_ms();
